@@ -190,3 +190,70 @@ def rows_harness(name):
 
 def rows_harnesses(tier):
     return [rows_harness(n) for n in ROW_CONFIGS]
+
+
+# ------------------------------------------------------------------------------------------------------------------
+# C16 (connectivity part) for composite classes with their real conditioner networks
+# ------------------------------------------------------------------------------------------------------------------
+def grad_harness(name):
+    from .modules import grad_connected
+    make, xshape, methods = CONFIGS[name]
+    methods = [m for m in methods if m in ("forward", "inverse", "log_prob", "log_prob_ctx", "transform_to_noise")]
+
+    def run(h, ctx):
+        m = make(); m.eval()
+        for mname, mm in m.named_modules():
+            for k, p in list(mm._parameters.items()):
+                if p is None: continue
+                path = (mname + "." if mname else "") + k
+                s_ = h.inp("p:" + path, tuple(p.shape), p.dtype, owner="param")
+                s_._is_param = True; s_._g = {"requires_grad": True, "leaf": "p:" + path}
+                mm._parameters[k] = s_
+            for k, b_ in list(mm._buffers.items()):
+                if b_ is not None and isinstance(b_, torch.Tensor) and b_.dtype.is_floating_point and k == "running_var":
+                    s_ = h.inp(f"buf:{k}:{id(mm) % 997}", tuple(b_.shape), b_.dtype, owner="buffer"); mm._buffers[k] = s_
+                    for t in P(s_).reshape(-1): ctx.assume(t >= 0)
+        x = h.inp("x", xshape); x._g = {"requires_grad": True, "leaf": "x"}
+        c = h.inp("context", (xshape[0], 4)); c._g = {"requires_grad": True, "leaf": "context"}
+        out = {}
+        for meth in methods:
+            out[meth] = m.log_prob(x, context=c) if meth == "log_prob_ctx" else getattr(m, meth)(x)
+        return out
+
+    def post(h, ctx, outs):
+        for meth, v in outs.items():
+            grad_connected(h, ctx, list(_leaves(v)))
+
+    def native_call(h, inp):
+        torch.manual_seed(0); m = make().double().eval()
+        with torch.no_grad():
+            for p in m.parameters(): p.add_(torch.randn(p.shape, dtype=p.dtype) * 0.2)
+        x = torch.tensor(np.asarray(inp["x"]), requires_grad=True); c = torch.tensor(np.asarray(inp["context"]), requires_grad=True)
+        return m, x, c
+
+    def native_clauses(h, inp, r):
+        m, x, c = r
+        ok = True
+        for meth in methods:
+            f = (lambda: m.log_prob(x, context=c)) if meth == "log_prob_ctx" else (lambda: getattr(m, meth)(x))
+            for t in _leaves(f()):
+                if not t.dtype.is_floating_point: continue
+                leaves = [x] + list(m.parameters())
+                grads = torch.autograd.grad(t.sum(), leaves, allow_unused=True, retain_graph=True)
+                base = t.detach().clone()
+                for l, g in zip(leaves, grads):
+                    with torch.no_grad():
+                        old = l.detach().clone(); l.add_(0.0917)
+                        t2 = [u for u in _leaves(f()) if u.shape == base.shape and u.dtype == base.dtype]
+                        moved = any(not torch.allclose(u, base, atol=1e-10) for u in t2[:1]) if t2 else False
+                        l.copy_(old)
+                    if moved and g is None: ok = False
+        return {"C16.value-dependencies-are-gradient-connected": ok}
+    hn = Harness(f"grad_{name}[]", run, post, native_call=native_call, native_clauses=native_clauses,
+                 sample=lambda h, rng: {"x": rng.uniform(0.1, 0.9, size=xshape), "context": rng.normal(size=(xshape[0], 4))}, functions=[], check_defined=False)
+    hn.native_float32 = False
+    return hn
+
+
+def grad_harnesses(tier):
+    return [grad_harness(n) for n in CONFIGS if any(m in ("forward", "inverse", "log_prob", "log_prob_ctx") for m in CONFIGS[n][2])]
